@@ -7,6 +7,7 @@ import (
 	"os"
 	"os/exec"
 	"sync"
+	"sync/atomic"
 	"syscall"
 	"time"
 
@@ -34,6 +35,7 @@ type c02Peer struct {
 	eof     bool
 	stop    chan struct{}
 	stopped chan struct{}
+	paused  int32
 }
 
 func (p *c02Peer) startDrainer() {
@@ -47,6 +49,10 @@ func (p *c02Peer) startDrainer() {
 			case <-p.stop:
 				return
 			default:
+			}
+			if atomic.LoadInt32(&p.paused) == 1 {
+				time.Sleep(200 * time.Microsecond)
+				continue
 			}
 			pfd := []unix.PollFd{{Fd: int32(p.fd), Events: unix.POLLIN}}
 			n, _ := unix.Poll(pfd, 5)
@@ -105,11 +111,11 @@ func runC02(c *vf.Case) {
 		target = 4000000
 	}
 	sizes := []int{1, 2, 7, 64, 1024, 65536, 1 << 20}
-	chunking := r.Intn(4) // 0: 1 byte, 1: small random, 2: MSS-ish, 3: huge
+	chunking := r.Intn(4)    // 0: 1 byte, 1: small random, 2: MSS-ish, 3: huge
 	termination := r.Intn(6) // 0-3 none, 4 peer half-close mid-way, 5 peer reset mid-way
 	c.Logf("transport=%v small-buffers=%v target=%d bytes chunking=%d termination=%d", kind, small, target, chunking, termination)
 
-	inSent, inRecv := 0, 0       // inbound: bytes the peer wrote / bytes our reads accounted for
+	inSent, inRecv := 0, 0          // inbound: bytes the peer wrote / bytes our reads accounted for
 	outAccepted, outPeerGot := 0, 0 // outbound: bytes our writes reported / bytes the peer verified
 	var rdBuf []byte
 	var rdAll, rdInFlight, wrInFlight bool
@@ -373,6 +379,34 @@ func runC02(c *vf.Case) {
 			time.Sleep(time.Millisecond) // let the drainer goroutine run
 		}
 	}
+	// adapter only: a write cut short by a deadline. Nothing is discarded (no reset), so the reported count must
+	// EQUAL what the peer eventually receives, also on this error completion.
+	if kind == sim.KAdapter && !c.Failed() && !peerDead && !terminated && !wrInFlight && r.Chance(1, 2) {
+		if nc := o.NetConn(); nc != nil {
+			atomic.StoreInt32(&peer.paused, 1)
+			_ = nc.SetWriteDeadline(time.Now().Add(40 * time.Millisecond))
+			buf := make([]byte, 8<<20)
+			vf.GenFill(buf, outGen, outAccepted)
+			done := false
+			var derr error
+			dn := 0
+			o.FD.AsyncWriteAll(buf, func(err error, n int) { done, derr, dn = true, err, n })
+			for i := 0; i < 2000 && !done; i++ {
+				_, _, _ = w.Poll()
+			}
+			_ = nc.SetWriteDeadline(time.Time{})
+			atomic.StoreInt32(&peer.paused, 0)
+			c.Logf("  adapter AsyncWriteAll(8 MiB) with a 40 ms write deadline and a stalled peer -> done=%v err=%v n=%d", done, derr, dn)
+			if !done {
+				c.Failf("operation-never-completed-at-quiescence/adapter", "AsyncWriteAll with a write deadline never completed")
+				return
+			}
+			onWrite("AsyncWriteAll(deadline)", buf, true, dn, derr)
+			if derr != nil && dn > 0 {
+				c.Count("adapter_writes_cut_short_by_deadline_after_moving_bytes", 1)
+			}
+		}
+	}
 	// quiescence: drain, poll until in-flight operations complete
 	if !c.Failed() {
 		if !peerDead && peer.fd >= 0 {
@@ -403,11 +437,18 @@ func runC02(c *vf.Case) {
 		}
 		// reconcile totals
 		if kind == sim.KAdapter {
-			deadline := 0
-			for outPeerGot < outAccepted && deadline < 2000 && !peerDead {
+			// the helper goroutine drains asynchronously: wait until the peer's count is stable
+			stable, waited := 0, 0
+			for stable < 20 && waited < 5000 && !peerDead {
+				before := outPeerGot
 				time.Sleep(time.Millisecond)
 				drainPeer(1 << 30)
-				deadline++
+				waited++
+				if outPeerGot == before && outPeerGot >= outAccepted {
+					stable++
+				} else {
+					stable = 0
+				}
 			}
 		} else {
 			dl := time.Now().Add(10 * time.Second)
@@ -418,6 +459,7 @@ func runC02(c *vf.Case) {
 				}
 			}
 		}
+		c.Logf("reconcile: reported %d, peer received %d, peerDead=%v", outAccepted, outPeerGot, peerDead)
 		if !peerDead {
 			if outPeerGot != outAccepted {
 				c.Failf("write-counts-do-not-match-bytes-received/"+kind.String(), "write callbacks reported %d bytes in total, the peer received %d", outAccepted, outPeerGot)
